@@ -42,6 +42,45 @@ def c20(tier):
 
 
 CRASH_COQ = ["Proofs_Checkers.v", "Proofs_Witnesses.v"]
+FW_TRUSTED = ["go/parser, go/types, golang.org/x/tools/go/packages (loading of the corpus); the ruleguard engine and astutil.Apply are observed, not modelled",
+              "harness/internal/fw: corpus loader, warning projection (offset/text/fix), structural fingerprint (unit-tested in fingerprint_test.go)"]
+
+
+def c02(tier):
+    vlib.standard(
+        "C02", tier, "c02", [f for f in ["Properties_C02.v", "Proofs_Determ.v", "MapRangeSites.v"] if _exists(f)],
+        assume=["nondeterminism inside third-party engines (ruleguard, gogrep) is covered by the repetition oracle only",
+                "Go's per-range randomisation of map iteration is the adversary of the in-process stream; hash seeds differ between processes for the CLI stream"],
+        trusted=FW_TRUSTED + ["translator vh gen maprange (go/ast+go/types over /repo/linter, /repo/checkers, /repo/cmd -> gen/MapRangeSites.v)"])
+
+
+def c13(tier):
+    vlib.standard(
+        "C13", tier, "c13", [f for f in ["Properties_C13.v", "Proofs_Walk.v", "Proofs_History.v"] if _exists(f)],
+        assume=["exempt by documented subject (file-level order): dupImport, commentedOutImport, typeDefFirst, codegenComment, importShadow",
+                "transformed examples are accepted only when they type-check as well as the original package"],
+        trusted=FW_TRUSTED)
+
+
+def c03(tier):
+    vlib.standard(
+        "C03", tier, "c03", [f for f in ["Properties_C03.v", "Proofs_History.v", "Proofs_Walk.v", "StateInventory.v"] if _exists(f)],
+        assume=["pkgload sorts the loaded packages by PkgPath (documented behaviour of the loader; exercised end to end by the CLI stream, not modelled)",
+                "the ruleguard engines' internal state (gogrep matcher state, node path) is covered by the reused-vs-fresh oracle only"],
+        trusted=FW_TRUSTED + ["translator vh gen stateinv (go/ast+go/types over /repo/checkers -> gen/StateInventory.v)"])
+
+
+def c05(tier):
+    vlib.standard(
+        "C05", tier, "c05", [f for f in ["Properties_C05.v", "Proofs_Heap.v", "MutationSites.v"] if _exists(f)],
+        assume=["writes performed inside third-party code (ruleguard engine, astutil.Apply internals, astcopy) are covered by the fingerprint oracle only",
+                "the fingerprint deliberately ignores the deprecated resolver fields ast.File.Scope/Unresolved and ast.Ident.Obj"],
+        trusted=FW_TRUSTED + ["translator vh gen mutsites (go/ast+go/types over /repo/checkers, /repo/linter -> gen/MutationSites.v)"])
+
+
+def _exists(f):
+    import os
+    return os.path.exists(os.path.join(vlib.COQ, "theories", f)) or os.path.exists(os.path.join(vlib.COQ, "gen", f))
 
 
 def c16(tier):
